@@ -130,13 +130,55 @@ def check_index(case):
     return fails, (op, len(x), len(ex))
 
 
+SLICE_HIST_OPS = [("shift_x", 2.0), ("scale_x", 2.0), ("restore_original",), ("truncate_by_index", 1, None), ("append", False),
+                  ("normalize_x", 0.0, 1.0), ("repeat", 2), ("observe", "slice_by_value")]
+
+
+@kind("slice-history")
+def check_slice_history(case):
+    """slice_by_value is a function of the CURRENT series: in every state of a history (including after
+    restore_original), with slices requested before and after each step"""
+    from checks import weaverops as WO
+    r = WO.Runner(WO.INITS[case["init"]])
+    fails = []
+    key = {"entry": "slice_by_value-history"}
+
+    def probe(step, op):
+        gx, gy = r.wv.get()
+        xs = [float(v) for v in gx]
+        ys = [float(v) for v in gy]
+        for (a, b) in ((0, len(xs) - 1), (1, len(xs) - 2), (None, len(xs) // 2), (len(xs) // 2, None)):
+            try:
+                sx, sy = r.wv.slice_by_value(None if a is None else gx[a], None if b is None else gx[b])
+            except Exception as e:  # noqa
+                fails.append(fail("raised", {"step": step, "after": op, "exception": repr(e)}, dict(key, exc=type(e).__name__)))
+                return
+            lo = 0 if a is None else a
+            hi = len(xs) - 1 if b is None else b
+            if [float(v) for v in sx] != xs[lo:hi + 1] or [float(v) for v in sy] != ys[lo:hi + 1]:
+                fails.append(fail("slice-by-value-after-history", {"step": step, "after": op, "bounds": [a, b], "observed": sx,
+                                                                   "expected": xs[lo:hi + 1]}, key))
+                return
+    probe(-1, None)
+    for i, op in enumerate(case["ops"]):
+        op = tuple(op)
+        if r.concretize(op) is None:
+            return fails, ("skipped",)
+        r.apply(op)
+        probe(i, op)
+        if fails:
+            break
+    return fails, (case["init"], tuple(tuple(o) for o in case["ops"]))
+
+
 def harnesses(tier, seed):
     quick = tier == "quick"
     kmax = 5 if quick else 6
     grids = [g for k in range(2, kmax + 1) for g in A.grids(7, k)]
     lat = [float(v) for v in A.half_lattice(-1, 8)]
     ratios = [-0.5, 0.0, 0.25, 0.5, 1.0, 1.5]
-    images = [("id", lambda v: float(v)), ("x/4+1", lambda v: v / 4.0 + 1.0), ("0.1x+0.3", lambda v: 0.1 * v + 0.3)]
+    images = [("id", lambda v: float(v)), ("x/4+1", lambda v: v / 4.0 + 1.0), ("0.1x+0.3", lambda v: 0.1 * v + 0.3),
+              ("2^50+x", lambda v: float(2 ** 50) + v), ("x/2^20", lambda v: v / float(2 ** 20))]
 
     def yv(k):
         return [float((3 * i) % 5 - 1) for i in range(k)]
@@ -192,5 +234,11 @@ def harnesses(tier, seed):
                     judge(ctx, check_index, {"x": x, "y": y, "start": start, "stop": stop, "step": step, "op": op},
                           bulk=True, nontrivial=lambda sg: sg[2] < sg[1])
 
-    return [{"name": "truncate-by-value", "body": trunc_body}, {"name": "slice-by-value", "body": slice_body},
+    def slice_hist_body(ctx):
+        ii = ctx.choose([0, 1, 2, 4], "init")
+        ops = [ctx.choose(SLICE_HIST_OPS, "op%d" % d) for d in range(3 if quick else 4)]
+        judge(ctx, check_slice_history, {"init": ii, "ops": [list(o) for o in ops]}, calls=4 * len(ops) + 4,
+              nontrivial=lambda sg: sg[0] != "skipped")
+
+    return [{"name": "slice-by-value-in-every-state", "body": slice_hist_body}, {"name": "truncate-by-value", "body": trunc_body}, {"name": "slice-by-value", "body": slice_body},
             {"name": "index-ranges", "body": index_body}]
